@@ -23,6 +23,10 @@ class TSPAdapter(TourAdapter):
     shard = 150
     obs_keys = ("first_node", "current_node", "i")
     tiny = 5
+    # the same keys after EVERY step in C02 / C04 (Harness/HTSP.v, HATSP.v book_obs), also against their definition
+    book_keys = (("i", "int"), ("current_node", "int"), ("first_node", "int"))
+    book_fn = "check_book"
+    book_type = "tsp_book"
 
     def variants(self, tier):
         # DenseRewardTSPEnv duplicates TSPEnv._step (same bookkeeping, plus a stepwise reward that is not part of
